@@ -35,6 +35,9 @@ def _run_z3(smt2: str, timeout_ms: int, seed: int) -> tuple[str, str, str]:
     s = z3.Solver()
     s.set("timeout", timeout_ms)
     s.set("random_seed", seed)
+    # proofs go through E-matching instantiation; model-based instantiation makes
+    # quantified queries diverge.  Counter-models come from pyvc/refute.py instead.
+    s.set("smt.mbqi", False)
     try:
         s.from_string(smt2)
     except z3.Z3Exception as e:
@@ -76,9 +79,40 @@ def _run_cvc5(smt2: str, timeout_ms: int) -> tuple[str, str, str]:
         os.unlink(path)
 
 
-def _work(item: tuple[str, str, int, int, bool]) -> Result:
-    oid, smt2, timeout_ms, seed, both = item
+def has_forall(t) -> bool:
+    seen = set()
+    st = [t]
+    while st:
+        e = st.pop()
+        if e.get_id() in seen:
+            continue
+        seen.add(e.get_id())
+        if z3.is_quantifier(e):
+            if not e.is_lambda():
+                return True
+            st.append(e.body())
+        else:
+            st.extend(e.children())
+    return False
+
+
+def to_smt2_core(pc: list, goal) -> str | None:
+    """The same obligation from the quantifier-free hypotheses only (a subset of the
+    hypotheses: a proof from it is a proof).  None if there is nothing to drop."""
+    core = [p for p in pc if not has_forall(p)]
+    if len(core) == len(pc):
+        return None
+    return to_smt2(core, goal)
+
+
+def _work(item) -> Result:
+    oid, smt2, timeout_ms, seed, both = item[:5]
+    core = item[5] if len(item) > 5 else None
     t0 = time.time()
+    if core is not None:
+        st, model, reason = _run_z3(core, min(timeout_ms, 3000), seed)
+        if st == "unsat":
+            return Result(oid, "unsat", "z3", time.time() - t0, "", "proved from the quantifier-free hypotheses")
     st, model, reason = _run_z3(smt2, timeout_ms, seed)
     backend = "z3"
     if st == "unknown":
@@ -94,8 +128,8 @@ def _work(item: tuple[str, str, int, int, bool]) -> Result:
     return Result(oid, st, backend, time.time() - t0, model, reason)
 
 
-def discharge(items: list[tuple[str, str]], timeout_ms: int, seed: int, both: bool = False, workers: int = 16) -> list[Result]:
-    work = [(oid, smt2, timeout_ms, seed, both) for oid, smt2 in items]
+def discharge(items: list[tuple], timeout_ms: int, seed: int, both: bool = False, workers: int = 16) -> list[Result]:
+    work = [(it[0], it[1], timeout_ms, seed, both, it[2] if len(it) > 2 else None) for it in items]
     if not work:
         return []
     if len(work) <= 2:
